@@ -40,6 +40,9 @@ static struct {
     long expected_creates;
     long queries;
     int legacy;
+    int recycle;             /* the pool hands a freed handle out again at once (LIFO free list) */
+    int freel[MAXREC], nfree;
+    long recycled;
     ABT_xstream xs[3];
 } S;
 
@@ -69,8 +72,16 @@ static ABT_unit do_create_unit(ABT_pool pool, ABT_thread thread)
     for (int i = 0; i < S.nrec; i++)
         SIM_CHECK(!(S.REC[i].alive && S.REC[i].thread == thread && S.REC[i].pool == pi), "upool:create-unit-twice",
                   "create_unit called for a work unit that already has a live unit in user pool %d", pi);
-    urec *r = &S.REC[S.nrec++];
-    r->handle = ((++S.ctr) << 27) | 8;
+    urec *r;
+    if (S.recycle && S.nfree > 0) {
+        /* like a slab allocator: the most recently freed handle is reused first, possibly by
+         * another stream while the freeing stream has not returned from the library yet */
+        r = &S.REC[S.freel[--S.nfree]];
+        S.recycled++;
+    } else {
+        r = &S.REC[S.nrec++];
+        r->handle = ((++S.ctr) << 27) | 8;
+    }
     r->thread = thread;
     r->pool = pi;
     r->alive = 1;
@@ -88,6 +99,8 @@ static void do_free_unit(ABT_pool pool, ABT_unit unit)
     SIM_CHECK(!r->queued, "upool:free-queued-unit", "free_unit called for a unit that is still queued in the pool");
     r->alive = 0;
     S.UP[pi].frees++;
+    if (S.recycle)
+        S.freel[S.nfree++] = (int)(r - S.REC);
 }
 static void do_push(ABT_pool pool, ABT_unit unit)
 {
@@ -244,6 +257,7 @@ static void run_c14(void)
     ABT_OK(ABT_init(0, NULL));
     sim_allow_faults((1u << SIM_F_CHAOS_POP) | (1u << SIM_F_STALL) | (1u << SIM_F_SLOW_NODE) | (1u << SIM_F_TARGET_DELAY) | (1u << SIM_F_NANOSLEEP_EARLY));
     S.legacy = plan_n(3) == 0;
+    S.recycle = plan_bool();
     ABT_pool_user_def def = NULL;
     ABT_pool_def ldef;
     if (!S.legacy) {
@@ -282,7 +296,7 @@ static void run_c14(void)
     }
     int n = plan_range(1, sim_limit("units", 8));
     S.n = n;
-    sim_note("C14 %s user pools, streams=%d units=%d: ", S.legacy ? "legacy" : "new-style", nes, n);
+    sim_note("C14 %s user pools%s, streams=%d units=%d: ", S.legacy ? "legacy" : "new-style", S.recycle ? " recycling handles" : "", nes, n);
     for (int i = 0; i < n; i++) {
         cu *u = &S.U[i];
         u->id = i;
@@ -360,6 +374,7 @@ static void run_c14(void)
         ABT_OK(ABT_pool_user_def_free(&def));
     sim_count("c14.translation_queries", (uint64_t)S.queries);
     sim_count("c14.units_created", (uint64_t)creates);
+    sim_count("c14.handles_recycled", (uint64_t)S.recycled);
     ABT_OK(ABT_finalize());
     sim_ledger_check_empty("after ABT_finalize");
 }
